@@ -204,12 +204,12 @@ def examine(case, draw=None, stats=None):
                 c2.add_jumper(**kw)          # the entry as it was made (start-list keywords included)
             bad = None
             for gj, (h2, t2) in enumerate(groups):
-                r = hjimpl.apply(c2, ('bar', h2))
+                r = hjimpl.apply(c2, ('bar', h2), bool(case.get('float_heights')))
                 if r[0] != 'ok':
                     bad = ('bar', str(h2), r)
                     break
                 for op, b in (seq if gj == gi else t2):
-                    r = hjimpl.apply(c2, (op, b))
+                    r = hjimpl.apply(c2, (op, b), bool(case.get('float_heights')))
                     if r[0] != 'ok':
                         bad = (op, b, r)
                         break
